@@ -5,4 +5,5 @@ CONSTANTS
   NilCloseGuarded = TRUE
   GuardTypedNil = TRUE
   CloseOnNilPayload = TRUE
+  PooledBuffer = FALSE
 CHECK_DEADLOCK FALSE
